@@ -20,7 +20,8 @@ LEVEL = "exploration"
 RULE = ("structures biased towards many determinants (balls and segments of the reference proteins with threaded "
         "ionizable residues, ligands incl. covalently coupled acid pairs, ions, multi-conformation inputs) x options "
         "{none, -i, -c, -d} x parameter-file variants (remove_penalised_group, shared_determinants, "
-        "common_charge_centre in {0,1}, passed with -p). Non-trivial: some group has >= 2 determinants of one type, "
+        "common_charge_centre in {0,1}, passed with -p); for multi-conformation inputs one file per conformation "
+        "(propka.output.write_pka) is checked as well. Non-trivial: some group has >= 2 determinants of one type, "
         "or the case exercises penalisation / sharing / -d, or the average spans >= 2 conformations; distinct by hash "
         "of (input, options, parameter variant).")
 ASSUMPTIONS = [
@@ -167,9 +168,10 @@ def check_case(case):
     remove_penalised = flags.get("remove_penalised_group", 1)
     if flags:
         opt += ["-p", variant_cfg(flags)]
-    rec = observe.run(text, opt, name="a")
+    rec = observe.run(text, opt, name="a", keep_mol=bool(case.get("per_conformation")))
     if rec["error"]:
         return [], {"labels": ["error:" + rec["error"]["type"]]}
+    mol = rec.pop("_mol", None)
     labels = []
     v = identity_violations(rec)
     info = {}
@@ -177,6 +179,22 @@ def check_case(case):
         cfg = census.read_cfg()
         fv, info = file_violations(rec, remove_penalised, cfg["write_out_order"])
         v += fv
+        if mol is not None and len(rec["conf_names"]) >= 2 and not v:
+            # one file per conformation (propka.output.write_pka): table and summary of the conformation written
+            import propka.output
+            for cname in rec["conf_names"]:
+                fn = "c02_%s.pka" % cname
+                propka.output.write_pka(mol, mol.version.parameters, filename=fn, conformation=cname, verbose=False)
+                txt = open(fn).read()
+                os.remove(fn)
+                sub = {"pka_text": txt.split("\n", 1)[1], "confs": {"AVR": rec["confs"][cname]}}
+                fv, _i = file_violations(sub, remove_penalised, cfg["write_out_order"])
+                for x in fv:
+                    x["detail"] = "file written for conformation %s: %s" % (cname, x["detail"])
+                v += fv
+                if fv:
+                    break
+            labels.append("file-per-conformation")
     # open finding F5: groups of residues that share chain+number and differ in insertion code share a label; the
     # average, the table and the summary address groups by label.  Only violations that concern such groups carry the
     # signature.
@@ -253,7 +271,7 @@ def run_shard(ctx):
 
     def body(t):
         s, text, opt, flags, labels = t
-        case = {"pdb": text, "optargs": opt, "flags": flags}
+        case = {"pdb": text, "optargs": opt, "flags": flags, "per_conformation": True}
         v, info = check_case(case)
         info["labels"] = info.get("labels", []) + [l for l in labels if l.startswith("conf:")] + \
             (["opt:" + opt[0]] if opt else []) + (["cfg-variant"] if flags else [])
@@ -274,7 +292,7 @@ def run_shard(ctx):
 
     def corpus_body(t):
         n, opt, flags = t
-        case = {"pdb": gen.corpus_text(n), "optargs": opt, "flags": flags}
+        case = {"pdb": gen.corpus_text(n), "optargs": opt, "flags": flags, "per_conformation": True}
         v, info = check_case(case)
         info["sample"] = {"structure": "corpus " + n, "optargs": opt, "parameter_flags": flags}
         ctx.account(case, v, info)
